@@ -119,6 +119,16 @@ theorem cost_linear (inp : Bytes) (env : Env) (m : Mode)
     unfold bound at this
     omega
 
+/-- **the cost twin is the loop's own count.** The instrumented loop `loopC` returns `loop`'s result and,
+    next to it, the number of input bytes visited; that number is `costLoop` (on every run: `loop` never
+    panics). So `cost_linear` bounds the work of the modelled loop itself. -/
+theorem cost_twin_follows_loop (inp : Bytes) (env : Env) (m : Mode) (fuel i lwc uc : Nat) (sb : Bytes) :
+    (loopC inp env m fuel i lwc uc sb).1 = loop inp env m fuel i lwc uc sb ∧
+    (loop inp env m fuel i lwc uc sb ≠ .panic →
+      (loopC inp env m fuel i lwc uc sb).2 = costLoop inp env m fuel i uc) :=
+  ⟨loopC_fst inp env m fuel i lwc uc sb,
+   fun h => loopC_snd inp env m fuel i lwc uc sb (by rw [loopC_fst]; exact h)⟩
+
 /-
 FULL STATEMENT (property clause "terminates in time proportional to the input"), which the
 unchanged tree does NOT satisfy in the keep-unknown modes:
